@@ -82,7 +82,19 @@ def judge(ln):
         ca = abs(dot(N, D)) / (norm(N) * norm(D))
         if ca < 1e-6: return ('skip', 'grazing-band')
         tol = tol / ca
-    r = on_ray(O, D, X, tol * 10)
+    tol_ray = tol * 10
+    if P.kind == 'sphere':
+        # the documented pole nudge (a hit within 1e-5 r of the pole axis is moved to x = 1e-5 r in LOCAL space, to keep phi
+        # defined) takes the reported point off the ray by up to 2e-5 r times the largest stretch of the attached transform
+        xl = to_local(P, X)
+        lim = 1e-5 * P.p['r']
+        if abs(xl[0]) <= 2 * lim and abs(xl[1]) <= 2 * lim:
+            stretch = 1.0
+            if P.xf is not None:
+                m = P.xf.m
+                stretch = math.sqrt(sum(m[i][j] ** 2 for i in range(3) for j in range(3)))
+            tol_ray += 2 * lim * stretch
+    r = on_ray(O, D, X, tol_ray)
     if r[0] != 'ok': return r
     why = surface_residual(P, X, tol)
     if why: return ('fail', 'off-surface:' + P.kind, why)
